@@ -434,7 +434,7 @@ def proofs(ctx, prop_file, extract_files=(), components=()):
     return True
 
 
-def differential(ctx, component, cases, to_model, run_impl, key=None, hist=None):
+def differential(ctx, component, cases, to_model, run_impl, key=None, hist=None, canon=None):
     """Run impl and extracted model on the same cases; return the mismatches
     [(case, impl_out, model_out)].  Counting/sampling goes to the evidence."""
     lines = [to_model(c) for c in cases]
@@ -448,6 +448,8 @@ def differential(ctx, component, cases, to_model, run_impl, key=None, hist=None)
     for c, l, i, m in zip(cases, lines, impl, model):
         h = hist(c, i) if hist else {}
         ctx.count(component, 1, nontrivial_key=(key(c, i) if key else l), **h)
+        if canon is not None:
+            i, m = canon(i, m)
         if i != m:
             mism.append((c, i, m))
     for c, l, i in list(zip(cases, lines, impl))[:2]:
